@@ -82,6 +82,20 @@ CHECKS = {
         'Trusted: the published test vectors transcribed in the check; 256-bit domains are sampled.',
         'DESIGN.md 3/C14',
     ),
+    'C15': (
+        'model-based histories + exhaustive crash-point enumeration per mutating operation',
+        'fault_enumeration',
+        'Generated histories of update/delete/delete_all/get/get_all/get_resolving_keys/reopen over 1..3 namespaces '
+        '(explicit and default) sharing one file and 1..4 peers, every PairingKeys field combination; after every '
+        'operation fresh instances of every namespace must equal the merge-semantics dict model and other '
+        'namespaces\' raw JSON must be unchanged. For every mutating operation every file-system step (mkdir, open, '
+        'each write/flush/close, replace) is a crash point and ALL are tried: the main file must equal the pre- or '
+        'post-state bytes, parse, read back the matching model, and the retried operation must succeed.',
+        'Trusted: the mock.patch wrappers around the file-system calls bumble.keys makes (a crash = BaseException '
+        'at step k, only a generated prefix of buffered data reaches the temp file); histories are sampled, crash '
+        'points per operation are exhaustive.',
+        'DESIGN.md 3/C15',
+    ),
 }
 
 NOT_YET = 'check not built yet in this session (planned in DESIGN.md section 3)'
